@@ -53,7 +53,8 @@ PROPS = {
     "C18": dict(
         modules=["JPV.Props.C18", "JPV.Props.C13"],
         theorems=["JPV.Props.C18_boundary", "JPV.Props.C18_complete", "JPV.Props.C18_raise", "JPV.Props.C18_steps", "JPV.Props.C13_eval",
-                  "JPV.Props.C18_nd_raise", "JPV.Props.C18_nd_find_raise", "JPV.Props.C18_nd_complete"],
+                  "JPV.Props.C18_nd_raise", "JPV.Props.C18_nd_find_raise", "JPV.Props.C18_nd_complete",
+                  "JPV.Props.C18_graph_cycle", "JPV.Props.C18_graph_boundary", "JPV.Props.C18_graph_bounded"],
         tables=[T + "env_defaults_model"],
         explore=ce.explore_c18,
     ),
